@@ -64,6 +64,7 @@ var gens = map[string]func(outDir string) error{
 	"ruletable": c15.GenRuleTable,
 	"ir":        c17.GenIR,
 	"suggest":   c09.GenSuggestTable,
+	"prectable": c09.GenPrecTable,
 	"stateinv":  inventory.GenStateInventory,
 	"maprange":  inventory.GenMapRangeSites,
 	"mutsites":  inventory.GenMutationSites,
